@@ -38,28 +38,28 @@ CHECKS = {
     "C05": dict(
         engine="schedsim",
         technique="deterministic simulation: block validators (parse_spends, run_block_generator2), the mempool pre-validator (validate_clvm_and_signature, feeding its pairings back) and an evictor run as simulated threads on one shared BlsCache under a seeded scheduler at lock granularity; a wallet signs with the real helper, a channel injects one tampering per bundle; verdicts are compared with a ground truth by construction computed from an independent statement of the 8 message rules; per-run random domain constants",
-        text="Seeded search over (bundles x tamperings x cache capacity / warm-up x parties x schedules). Every path's verdict, under every explored interleaving and cache history, in a final sweep and without a cache, must equal the verdict fixed by which (key, prescribed message) multiset was signed; the helper's messages and the pre-validator's cache keys must equal the reference; the block paths receive the bundle plain, back-referenced (identical conditions decode to one node) or with INTERNED_GENERATOR. Exploration level (5 k runs quick, 200 k thorough). Narrowed claim: the schedule search decides cache and path independence; the per-opcode message rule is checked by the oracle the histories need, i.e. by seeded inputs, not by the schedules.",
+        text="Seeded search over (bundles x tamperings x cache capacity / warm-up x parties x schedules). Every path's verdict, under every explored interleaving and cache history, in a final sweep and without a cache, must equal the verdict fixed by which (key, prescribed message) multiset was signed; the helper's messages and the pre-validator's cache keys must equal the reference; the block paths receive the bundle plain, back-referenced (identical conditions decode to one node) or with INTERNED_GENERATOR; a further party pre-validates with the signature check deferred (DONT_VALIDATE_SIGNATURE) on the shared cache, which must not change anybody's verdict. Exploration level (5 k runs quick, 200 k thorough). Narrowed claim: the schedule search decides cache and path independence; the per-opcode message rule is checked by the oracle the histories need, i.e. by seeded inputs, not by the schedules.",
         design_ref="DESIGN.md section 3, C05",
         note="Trusted: blst, the scheduler/hook, the harness's rule table (written from the property's restatement of CHIP-11, sharing no code with conditions.rs or the helper). Only accept/reject is compared. Expected verdicts are computed from the delivered bundle, so harmless tampering is expected to pass.",
     ),
     "C10": dict(
         engine="histsim",
         technique="deterministic simulation, reduced sequential form: seeded add/finalize histories with injected failing attempts (rejected by the pre-check, rejected after serialisation with declared costs landing on / around the remaining budget, failing mid-batch on truncated or bit-flipped bytes), two builder replicas (full history vs accepted-only) compared byte for byte, generator decoded and validated by the real run_block_generator2",
-        text="Seeded search over attempt histories x failure kinds x cost landing points for both builders under small per-run block limits. After finalize: replicas identical, generator = exactly the accepted spends, signature = aggregate of the accepted signatures, cost <= limit, cost = consensus cost and validates with max_cost = cost when declared costs were truthful, cost() reads after the last accepted attempt >= final cost, a rejected attempt leaves cost() unchanged, no panic; one history in twelve consists only of spends that share no atom with anything else. Exploration level (100 k histories quick, 5 M thorough). Reduced form: no scheduler and no clock, the fault is 'this attempt fails in this way'.",
+        text="Seeded search over attempt histories x failure kinds x cost landing points for both builders under small per-run block limits. After finalize: replicas identical, generator = exactly the accepted spends, signature = aggregate of the accepted signatures, cost <= limit, cost = consensus cost and validates with max_cost = cost when declared costs were truthful, cost() reads after the last accepted attempt >= final cost, a rejected attempt leaves cost() unchanged, no panic; one history in twelve consists only of spends that share no atom with anything else; spends are occasionally repeated verbatim and must be emitted as often as accepted; declared costs reach 2^64-1. Exploration level (100 k histories quick, 5 M thorough). Reduced form: no scheduler and no clock, the fault is 'this attempt fails in this way'.",
         design_ref="DESIGN.md section 3, C10",
         note="Trusted: run_block_generator2 and run_spendbundle as validator / cost oracle, clvmr decoding, the harness's accepted-attempt model. Equality with the consensus cost only when every accepted declared cost was truthful. Two known findings on the unchanged tree (known_findings.txt): compressed builder cost() with zero accepted attempts; back-reference bytes after a rejected attempt.",
     ),
     "C15": dict(
         engine="schedsim",
         technique="deterministic simulation: real threads parked and released one at a time at every acquisition of BlsCache's (hooked) mutex by a seeded uniform / PCT scheduler; capacity pressure, evictions, snapshots and invalid signatures injected; ground truth by construction; capacity invariant at every scheduling step; deadlock and bounded-liveness detection; recorded schedules replayed and minimised",
-        text="Seeded search over (cache capacity x prior contents x 2-4 thread scripts x schedules at lock granularity). Every cache-assisted verdict, on the shared cache, on snapshots and in a final sequential sweep, must equal the verdict fixed by how the signature was constructed; len <= capacity is checked at every scheduling step; the cache-free verifiers (aggregate_verify, verify, aggregate_verify_gt, aggregate_pairing) are checked against the same ground truth; the pair list is handed over in four forms (exact-size, unknown-size and one-at-a-time iterators, owned values). Exploration level: about 6 k schedules quick, 300 k thorough; a clean batch is evidence, not proof.",
+        text="Seeded search over (cache capacity x prior contents x 2-4 thread scripts x schedules at lock granularity). Every cache-assisted verdict, on the shared cache, on snapshots and in a final sequential sweep, must equal the verdict fixed by how the signature was constructed; len <= capacity is checked at every scheduling step; the cache-free verifiers (aggregate_verify, verify, aggregate_verify_gt, aggregate_pairing) are checked against the same ground truth; the pair list is handed over in four forms (exact-size, unknown-size and one-at-a-time iterators, owned values); queries reach 513 pairs; the key pool contains a valid and an off-subgroup key with equal 32-bit fingerprints. Exploration level: about 6 k schedules quick, 300 k thorough; a clean batch is evidence, not proof.",
         design_ref="DESIGN.md section 3, C15",
         note="Trusted: blst, the scheduler and the hooked Mutex wrapper (chia_bls::verif_hooks). Interleavings are explored at lock-acquisition granularity (evidence reports lock_sites_seen). Public keys outside the subgroup are generated by adding a G1 torsion point to honest keys (the holder signs over the shifted key's bytes). Signatures outside the subgroup that still satisfy the pairing equation cannot be constructed with the available API, so the subgroup test inside aggregate_verify_gt is only exercised with points that fail the equation anyway.",
     ),
     "C18": dict(
         engine="histsim",
         technique="deterministic simulation: seeded operation histories with injected failing operations and restarts (volatile index dropped, only blob bytes survive, in memory and through the real file path), stepped against a plain-map reference model with independent root/proof recomputation; minimised replay files",
-        text="Seeded search over operation histories x restart points x failing operations on the real MerkleBlob against an executable reference model (plain map + independent SHA-256 tree recomputation). Every step checks outcome class, failure atomicity (byte-identical blob), content, check_integrity; every restart checks reload equivalence; after calculate_lazy_hashes the root and every key's proof are recomputed independently; on trees of up to 64 leaves every read-only view (tree walk from the root, key index, leaf lookup, hash->index maps, lineages) is compared with the model after every step, and clones are checked for equivalence and independence. Exploration level: it samples (about 0.5 M histories quick, 3 M thorough with one in five a long history on a large or degenerate tree); a clean batch is evidence, not proof.",
+        text="Seeded search over operation histories x restart points x failing operations on the real MerkleBlob against an executable reference model (plain map + independent SHA-256 tree recomputation). Every step checks outcome class, failure atomicity (byte-identical blob), content, check_integrity; every restart checks reload equivalence; after calculate_lazy_hashes the root and every key's proof are recomputed independently; on trees of up to 64 leaves every read-only view (tree walk from the root, key index, leaf lookup, hash->index maps, lineages) is compared with the model after every step, and clones are checked for equivalence and independence. Leaf hashes include values equal to the internal-node hash of two live leaves; chains reach 8 200 levels. Exploration level: it samples (about 0.5 M histories quick, 3 M thorough with one in five a long history on a large or degenerate tree); a clean batch is evidence, not proof.",
         design_ref="DESIGN.md section 3, C18",
         note="Trusted: the harness's reference model and the sha2 crate. Restarts are clean (bytes as last written); damaged files are out of scope because the property promises nothing about them. Hashes are only examined after calculate_lazy_hashes.",
     ),
